@@ -220,9 +220,10 @@ public:
 
         bool advance_suspend_lk(Handle h, awaiter *awt) {
             subreg_t &l = _regs[h];
-            if (l._kicked || _closed) return false;
+            if (l._kicked) return false;
             l._pos++;
-            if (l._pos == _pos) {
+            //park only when there is nothing to read and the stream is still open
+            if (l._pos == _pos && !_closed) {
                 l._awt = awt;
                 return true;
             } else {
